@@ -10,8 +10,9 @@ from harness.engine import tlc as T
 SPEC = os.path.join(T.SPECS, "Sections")
 TAGS = ["info", "comment", "error", "b", "c1"]
 ACTIONS = ["HCreate", "HWrite1", "HWrite2", "HOverwrite", "HClear", "HClearN"]
-GATE_ACTIONS = ["HCreate", "HWrite1", "HOverwrite", "HClear", "HClearN", "HWriteF", "HQuiet", "HVerb"]
+GATE_ACTIONS = ["HCreate", "HWrite1", "HOverwrite", "HClear", "HClearN", "HWriteF", "HQuiet", "HVerb", "HIndent"]
 ALPHA = "abcdefghijklmnopqrstuvwxyzABCDEFGHIJKLMNOPQRSTUVWXYZ0123456789"
+ALPHA_R = ALPHA + u"\u00e9\u00df\u00f1\u0416"  # recorded runs also use non-ASCII letters (one cell each)
 
 
 class _AnsiStream(object):
@@ -59,16 +60,29 @@ def build(ansi, how, via):
     out = Output(stream, fmt)
     if via == "io":
         io = IO(Input(StringInputStream("")), out, Output(BufferedOutputStream(), fmt))
-        return stream, (lambda: io.section().output), out
+
+        def make():
+            sio = io.section()
+            return sio.output, sio
+
+        return stream, make, out
     return stream, out.section, out
 
 
 def run_case(case):
-    """performs the calls of a case on real section outputs -> trace (list of events for SectionsTrace)"""
+    """performs the calls of a case on real section outputs -> trace (list of events for SectionsTrace).
+    A case with a "pair" key runs two cases interleaved (two outputs alive at the same time) and returns the trace of
+    case["which"]."""
+    base = case["pair"][0] if "pair" in case else case
     old = os.environ.get("COLUMNS")
-    os.environ["COLUMNS"] = str(case["w"])
+    os.environ["COLUMNS"] = str(base["w"])
     try:
-        return _run_case(case)
+        if "pair" in case:
+            return run_pair(case)[case["which"]]
+        r = Runner(case)
+        for op in case["ops"]:
+            r.step(op)
+        return r.trace
     finally:
         if old is None:
             os.environ.pop("COLUMNS", None)
@@ -81,55 +95,111 @@ def _event(op, s=0, lines=(), n=0, w=0, ansi=False):
             "rows": [], "cnt": []}
 
 
-def _run_case(case):
-    ansi = case["ansi"]
-    stream, factory, parent = build(ansi, case.get("how", "forced" if ansi else "plainfmt"), case.get("via", "output"))
-    ev = _event("init", lines=case["pre"], w=case["w"], ansi=ansi)
-    for p in case["pre"]:  # what is on the terminal before the first section is created
-        if parent is not None and case.get("pre_by") == "output":
-            parent.write_line(p)  # printed through the output the sections belong to
-        else:
-            stream.write(p + "\n")  # put there by the harness itself
-    ev["ops"] = termbytes.ops(stream.fetch())
-    trace = [ev]
-    secs = []
-    for op in case["ops"]:
+class _Dead(object):
+    def fetch(self):
+        return ""
+
+
+class Runner(object):
+    """one output with its sections; step() performs one call and appends the event with its observations"""
+
+    def __init__(self, case, built=None):
+        self.case = case
+        ansi = case["ansi"]
+        ev = _event("init", lines=case["pre"], w=case["w"], ansi=ansi)
+        self.secs = []  # (section output, section IO or None)
+        self.nops = 0
+        try:
+            self.stream, self.factory, parent = built or build(
+                ansi, case.get("how", "forced" if ansi else "plainfmt"), case.get("via", "output"))
+            for p in case["pre"]:  # what is on the terminal before the first section is created
+                if parent is not None and case.get("pre_by") == "output":
+                    parent.write_line(p)  # printed through the output the sections belong to
+                else:
+                    self.stream.write(p + "\n")  # put there by the harness itself
+        except Exception as e:  # noqa: also a failing constructor is an observation
+            ev["exc"] = type(e).__name__
+            self.stream = getattr(self, "stream", None) or _Dead()
+        ev["ops"] = termbytes.ops(self.stream.fetch())
+        self.trace = [ev]
+
+    def step(self, op):
+        if self.trace[0]["exc"]:
+            return
         k = op["op"]
         ev = _event(k, op.get("s", 0), op.get("lines", ()), op.get("n", 0))
-        mark = len(stream.fetch())
+        mark = len(self.stream.fetch())
+        self.nops += 1
+        kw = self.nops % 2 == 0  # equivalent spellings of a call alternate: keyword / positional arguments
         try:
             if k == "create":
-                secs.append(factory())
-                ev["s"] = len(secs)
+                made = self.factory()
+                self.secs.append(made if isinstance(made, tuple) else (made, None))
+                ev["s"] = len(self.secs)
             else:
-                sec = secs[op["s"] - 1]
+                sec, sio = self.secs[op["s"] - 1]
+                top = sio if sio is not None else sec  # the section IO offers the same calls one level up
                 msg = "\n".join(op.get("markup") or op.get("lines", ()))
-                if k == "write":  # n: message-level flag (0 = none)
-                    sec.write_line(msg, op.get("n", 0) or None)
+                n = op.get("n", 0)
+                if k == "write":  # n: message-level flag (0 = none, passed as None or as 0)
+                    if kw:
+                        top.write_line(msg, flags=n)
+                    else:
+                        top.write_line(msg, n or None)
                 elif k == "quiet":
-                    sec.set_quiet(bool(op["n"]))
+                    top.set_quiet(bool(n))
                 elif k == "verb":
-                    sec.set_verbosity(op["n"])
+                    top.set_verbosity(n)
+                elif k == "indent":
+                    top.indent(n)
                 elif k == "overwrite":
                     sec.overwrite(msg)
                 elif k == "clear":
                     sec.clear()
                 elif k == "clearn":
-                    sec.clear(op["n"])
+                    if kw:
+                        sec.clear(lines=n)
+                    else:
+                        sec.clear(n)
                 else:
                     raise T.MachineryError("unknown op %r" % (k,))
         except T.MachineryError:
             raise
         except Exception as e:  # noqa: every exception kind is an observation
             ev["exc"] = type(e).__name__
-        ev["ops"] = termbytes.ops(stream.fetch()[mark:])
+        ev["ops"] = termbytes.ops(self.stream.fetch()[mark:])
         try:
-            ev["rows"] = [int(x.lines) for x in secs]
-            ev["cnt"] = [x.content.count("\n") for x in secs]
+            ev["rows"] = [int(x.lines) for x, _ in self.secs]
+            ev["cnt"] = [x.content.count("\n") for x, _ in self.secs]
         except Exception as e:  # noqa
             ev["rows"], ev["cnt"] = [-1], [-1]
-        trace.append(ev)
-    return trace
+        self.trace.append(ev)
+
+
+def run_pair(case):
+    """two outputs alive at the same time, their calls interleaved as case["order"] says (0 / 1 = whose next call).
+    shared = True: the two outputs of ONE IO (standard and error output), each with its own sections."""
+    ca, cb = case["pair"]
+    built = [None, None]
+    if case.get("shared"):
+        from clikit.api.io import Input, IO, Output
+        from clikit.io.input_stream import StringInputStream
+
+        sa, _, oa = build(ca["ansi"], ca.get("how", "forced" if ca["ansi"] else "plainfmt"), "output")
+        sb, _, ob = build(cb["ansi"], cb.get("how", "forced" if cb["ansi"] else "plainfmt"), "output")
+        io = IO(Input(StringInputStream("")), oa, ob)
+        built = [(sa, io.output.section, oa), (sb, io.error_output.section, ob)]
+    rs = [Runner(ca, built[0]), Runner(cb, built[1])]
+    pos = [0, 0]
+    for who in case["order"]:
+        c = (ca, cb)[who]
+        if pos[who] < len(c["ops"]):
+            rs[who].step(c["ops"][pos[who]])
+            pos[who] += 1
+    for who, c in enumerate((ca, cb)):
+        for op in c["ops"][pos[who]:]:
+            rs[who].step(op)
+    return [rs[0].trace, rs[1].trace]
 
 
 def check_known(trace, ansi):
@@ -179,8 +249,8 @@ def nontrivial(case):
 # ------------------------------------------------------------------------------------------------ random cases
 def _line(rng, w, k):
     n = rng.choice([0, 1, w - 1, w, w + 1, 2 * w - 1, 2 * w, 2 * w + 1, rng.randint(0, 3 * w), rng.randint(1, w)])
-    off = rng.randrange(len(ALPHA))
-    s = "".join(ALPHA[(off + 7 * k + j) % len(ALPHA)] for j in range(n))
+    off = rng.randrange(len(ALPHA_R))
+    s = "".join(ALPHA_R[(off + 7 * k + j) % len(ALPHA_R)] for j in range(n))
     if n > 3 and rng.random() < 0.25:  # an interior space
         j = rng.randint(1, n - 2)
         s = s[:j] + " " + s[j + 1:]
@@ -222,7 +292,10 @@ def random_case(rng, maxlen=40):
         s = rng.randint(1, len(counts))
         g = gates[s - 1]
         if gated and x > 0.9:
-            if rng.random() < 0.5:
+            y = rng.random()
+            if y < 0.3:
+                case["ops"].append({"op": "indent", "s": s, "n": rng.choice([0, 1, 2, 3])})
+            elif y < 0.65:
                 g["quiet"] = not g["quiet"]
                 case["ops"].append({"op": "quiet", "s": s, "n": int(g["quiet"])})
             else:
@@ -255,6 +328,30 @@ def random_case(rng, maxlen=40):
             op["markup"] = [_markup(rng, x) for x in op["lines"]]
         case["ops"].append(op)
     return case
+
+
+def random_pair(rng):
+    ca = random_case(rng, 25)
+    cb = random_case(rng, 25)
+    cb["w"] = ca["w"]
+    shared = rng.random() < 0.5
+    if shared:  # the standard and the error output of one IO; sections come from output.section()
+        ca["via"] = cb["via"] = "output"
+    cb["pre"] = [p[:ca["w"] + 1] for p in cb["pre"]]
+    n = len(ca["ops"]) + len(cb["ops"])
+    return {"pair": [ca, cb], "shared": shared, "order": [rng.randint(0, 1) for _ in range(n)]}
+
+
+def run_pair_env(pc):
+    old = os.environ.get("COLUMNS")
+    os.environ["COLUMNS"] = str(pc["pair"][0]["w"])
+    try:
+        return run_pair(pc)
+    finally:
+        if old is None:
+            os.environ.pop("COLUMNS", None)
+        else:
+            os.environ["COLUMNS"] = old
 
 
 # ------------------------------------------------------------------------------------------------ the check
@@ -349,6 +446,15 @@ def run(ctx):
         if nontrivial(case):
             ctx.nontriv(("r", t))
     ctx.sample({"random_case": {k: (v[:10] if k == "ops" else v) for k, v in cases[-1].items()}})
+    for t in range(100 if quick else 1000):  # two outputs alive at the same time, calls interleaved
+        pc = random_pair(ctx.rng)
+        trs = run_pair_env(pc)
+        for which in (0, 1):
+            check_known(trs[which], pc["pair"][which]["ansi"])
+            traces.append(trs[which])
+            cases.append(dict(pc, which=which))
+            ctx.count()
+            ctx.nontriv(("p", t, which))
     ctx.validate(SPEC, "SectionsTrace", "SectionsTrace.cfg", traces, cases=cases, name="recorded-sequences")
 
 
